@@ -98,15 +98,15 @@ UnpadSweepVerdict(e) ==
    IN IF M = {} THEN "ok"
       ELSE ToJson({[clause |-> c, n |-> Cardinality({m \in M : m.clause = c}), s |-> (CHOOSE m \in M : m.clause = c).s] : c \in clauses})
 PadVerdict(e) ==
-   IF e.out # "ok" THEN "pad raised " \o e.out
+   IF e.out # "ok" THEN "raised " \o e.out
    ELSE IF e.padded # Pad(e.data, e.bs, e.style) THEN "padded string is not the defined one" ELSE "ok"
 L2bVerdict(e) ==
-   IF e.out # "ok" THEN "long_to_bytes raised " \o e.out
-   ELSE IF e.bytes # LongToBytes(e.n, e.blocksize) THEN "long_to_bytes: not the defined octets"
+   IF e.out # "ok" THEN "raised " \o e.out
+   ELSE IF e.bytes # LongToBytes(e.n, e.blocksize) THEN "result is not the defined octet string"
    ELSE IF e.back # e.n THEN "bytes_to_long(long_to_bytes(n)) differs from n" ELSE "ok"
 B2lVerdict(e) ==
-   IF e.out # "ok" THEN "bytes_to_long raised " \o e.out
-   ELSE IF e.v # BytesToLong(e.s) THEN "bytes_to_long: value differs" ELSE "ok"
+   IF e.out # "ok" THEN "raised " \o e.out
+   ELSE IF e.v # BytesToLong(e.s) THEN "value differs" ELSE "ok"
 \* RFC 1751 as an uninterpreted bijection: six words per 8 octets, decoding returns the key, words are canonical (upper case,
 \* re-encoding the decoded key gives the same words) and case-insensitive on input
 Rfc1751Verdict(e) ==
@@ -171,7 +171,7 @@ PbesOid == <<<<1>>, <<2>>, <<3, 72>>, <<1, 187, 141>>, <<1>>, <<5>>, <<13>>>>
 WrapVerdict(e) ==
    LET inner == Pkcs8Wrap(e.arcs, e.key, e.params) IN
    First(<<
-     IF e.out # "ok" THEN "wrap raised " \o e.out ELSE "ok",
+     IF e.out # "ok" THEN "raised " \o e.out ELSE "ok",
      IF ~e.enc /\ e.wrapped # inner THEN "PKCS#8 container is not the canonical encoding" ELSE "ok",
      IF e.enc THEN (LET top == Decode(SeqOf(<<2>>), e.wrapped) IN
                     IF ~IsOk(top) \/ top[3] \/ top[2].m[1].int \/ top[2].m[2].int THEN "encrypted container is not a SEQUENCE of two elements"
@@ -186,7 +186,7 @@ WrapVerdict(e) ==
      IF e.enc /\ e.nopass # "ValueError" THEN "encrypted container without passphrase: " \o e.nopass ELSE "ok" >>)
 \* PEM.encode: canonical armour; decoding returns data, marker and the encryption flag
 PemEncVerdict(e) == First(<<
-   IF e.out # "ok" THEN "PEM.encode raised " \o e.out ELSE "ok",
+   IF e.out # "ok" THEN "raised " \o e.out ELSE "ok",
    IF e.out = "ok" /\ ~e.enc /\ e.text # PemEncode(e.data, e.marker) THEN "armour is not the canonical one" ELSE "ok",
    IF e.enc /\ (e.text # PemEncodeEncrypted(e.ct, e.marker, e.salt) \/ Len(e.ct) # (Len(e.data) \div 8 + 1) * 8) THEN "encrypted armour has not the defined layout" ELSE "ok",
    IF e.out = "ok" /\ e.back # "ok" THEN "rejected a canonical PEM block" \o (IF Len(e.data) = 0 THEN ": empty data" ELSE "") ELSE "ok",
